@@ -71,6 +71,14 @@ def _masks_and_characters(ctx, rep):
 
 
 def check(ctx, rep):
+    # FILES lists every visible file: on POSIX hosts only dot files are hidden -- `~` is a legal DOS character and a name that
+    # ends in it is a file like any other
+    ih = ctx.fn('pcbasic/compat/posix.py:is_hidden')
+    preds = [c for c in own_nodes(ih) if isinstance(c, ast.Call) and isinstance(c.func, ast.Attribute) and c.func.attr in ('startswith', 'endswith', 'find', 'index', 'count')]
+    preds += [c for c in own_nodes(ih) if isinstance(c, ast.Compare) and any(isinstance(o, ast.In) for o in c.ops)]
+    rep.ob('files.only-dot-files-hidden', 'posix is_hidden: a file is hidden iff its name starts with a dot (and is not . or ..)',
+           [norm(p_) for p_ in preds] == ["base.startswith('.')"] or [norm(p_) for p_ in preds] == ["base.startswith(u'.')"],
+           'hidden by %s: files that BASIC can create and open are left out of FILES and cannot be KILLed' % [norm(p_) for p_ in preds], ctx.where(ih))
     _masks_and_characters(ctx, rep)
     gn = ctx.fn(DISK + ':DiskDevice._get_native_name')
     fl = ctx.flow(gn)
@@ -189,6 +197,9 @@ def variants(ctx):
         return lambda tree: f(mu.find_def(tree, f_name))
 
     return [
+        mu.Variant('names-ending-in-tilde-hidden', 'break', 'pcbasic/compat/posix.py',
+                   lambda tree: mu.replace_expr(mu.find_def(tree, 'is_hidden'), lambda n: isinstance(n, ast.Call) and isinstance(n.func, ast.Attribute) and n.func.attr == 'startswith', "(base.startswith(u'.') or base.endswith(u'~'))"),
+                   expect='files.only-dot-files-hidden'),
         mu.Variant('kill-matches-whole-name-against-mask', 'break', 'pcbasic/basic/devices/disk.py',
                    lambda tree: mu.replace_expr(mu.find_def(tree, 'DiskDevice.kill'), mu.text_is('dos_name_matches(trunk, trunkmask) and dos_name_matches(ext, extmask)'), 'dos_name_matches(dos_name, dos_mask)'),
                    expect='mask.matched-field-by-field'),
